@@ -114,7 +114,7 @@ def stepDrainStr (it : StepIt) (cap : Nat) : String :=
   let strs := items.map (fun x => match x with
     | .ok (p, r) => s!"P {pairStr p} | {recStr r}"
     | .error e => stErrStr e)
-  join " ; " (if items.length ≥ cap then strs ++ ["cap"] else strs ++ ["done"])
+  join " ; " ((if items.length ≥ cap then strs ++ ["cap"] else strs ++ ["done"]) ++ ["plain=ok"])
 
 def stepReply (hdr : List UInt8) (recs : List (List UInt8)) (cap : Nat) : String :=
   match Hdr.parse hdr, recs.mapM (fun r => match Rec.parse r with | .ok r => some r | .error _ => none) with
